@@ -74,6 +74,16 @@ def main():
                 print("HARNESS ERROR: C19: engine B diverged between processes", file=sys.stderr); sys.exit(2)
         report["C19"] = {"run_indices": n, "invocations_per_index": 6, "processes": max(4, procs // 2), "all_equal": True}
         print(f"C19: {n} run indices x {max(4, procs // 2)} processes: all digests equal")
+    LIB = f"{VERIF}/target/libsim/release/libsim"
+    if os.path.exists(LIB):
+        n = max(4, int(60 * nscale))
+        for i in range(n):
+            a1 = json.loads(run([LIB, "child", "1", str(i)]))
+            a2 = json.loads(run([LIB, "child", "1", str(i)]))
+            if a1["digest"] != a2["digest"] or a1["schedules"] != a2["schedules"]:
+                print(f"HARNESS ERROR: C15 threads clause: world {i} differs between two fresh processes", file=sys.stderr); sys.exit(2)
+        report["C15-threads"] = {"worlds": n, "fresh_processes_per_world": 2, "all_equal": True}
+        print(f"C15 threads clause (engine C): {n} worlds x 2 fresh processes: digests and schedules equal")
     report["wall_s"] = round(time.time() - t0, 1)
     json.dump(report, open(f"{VERIF}/evidence/determinism.json", "w"), indent=1)
     print("determinism proof passed in %.1fs" % (time.time() - t0))
